@@ -16,7 +16,7 @@ P = "param.parameterized."
 
 
 def run(ctx):
-    ctx.rule("R04.a", "while the batching flag is set _call_watcher executes nothing: on that arm the event and the watcher are queued (8 abstract cases, exhaustive)", floor=1)
+    ctx.rule("R04.a", "while the batching flag is set _call_watcher executes nothing: on that arm the event and the watcher are queued (16 abstract cases incl. queued watchers, exhaustive)", floor=1)
     ctx.rule("R04.b", "every flush call outside the flush itself is controlled by `not <saved batching flag>` or `not <read of the flag>` (flush iff outermost)", floor=5)
     ctx.rule("R04.c", "coalescing: a watcher already queued (by identity) is not queued again, a different one is; the flush maps (name, what) -> last event in queue order, "
                       "empties both queues before running the watchers and loops until no event is left", floor=4)
@@ -28,8 +28,8 @@ def run(ctx):
     # ------------------------------------------------------------ R04.a
     bad = []
     n = 0
-    for trig, oc, changed in itertools.product([True, False], repeat=3):
-        got, ns, w, _ = call_watcher_outcome(ctx, trig, oc, changed, True)
+    for trig, oc, changed, queued in itertools.product([True, False], repeat=4):
+        got, ns, w, _ = call_watcher_outcome(ctx, trig, oc, changed, True, queued=queued)
         n += 1
         if got in ("execute", "both"):
             bad.append((trig, oc, changed, got))
@@ -38,7 +38,7 @@ def run(ctx):
     if bad:
         ctx.fail("R04.a", cw, cw.node, "with the batching flag set (TRIGGER=%s, onlychanged=%s, changed=%s) _call_watcher still executes the watcher (%s)" % bad[0])
     else:
-        ctx.ok("R04.a", cw, cw.node, "8/8 abstract cases: nothing executes while batching")
+        ctx.ok("R04.a", cw, cw.node, "16/16 abstract cases: nothing executes while batching")
 
     # ------------------------------------------------------------ R04.b
     scopes = {(s.f.qualname): s for s in find_scopes(ctx) if s.fld == "_BATCH_WATCH"}
